@@ -10,8 +10,11 @@ Decides, by interpreting the operators' source with the checker's evaluator over
  * RankSelection.get_index returns an int in [0, len) for every bias of the documented range
    [1.0, 2.0] and every random value of [0, 1) incl. the largest double below 1, is monotone in
    the random value and puts the median in the better half;
-plus shape clauses: the front scan leaves its inner loop only when the candidate is dominated,
-every computed front is removed from the remaining individuals before the next one is computed.
+plus a shape clause: the front scan leaves its inner loop only when the candidate is dominated;
+ * compute_ranking_assignment, interpreted over populations that contain structurally equal individuals
+   (clones compare equal) x tie coin x configured population size, puts every individual into at most one
+   front (by identity), makes every later front the non-dominated set of the not yet ranked and sets each
+   member's rank to its front index (C14.assignment).
 The statistical preference of rank selection beyond monotonicity is not decided.
 """
 
@@ -46,11 +49,99 @@ def make_ind(vec, label, length=3, distance=-1):
     return o
 
 
+def _assignment(ctx, repo, cra, resolver, rmod, cmod) -> None:
+    """compute_ranking_assignment interpreted over populations that contain structurally equal individuals (clones
+    compare equal): the fronts hold every individual at most once (by identity), front 0 is the zero front, every
+    later front is exactly the set of non-dominated individuals among those not yet ranked, and the rank of a member
+    is the index of its front."""
+    psc = repo.func(CMP, "PreferenceSortingComparator.compare")
+    dcmp = repo.func(CMP, "DominanceComparator.compare")
+    cls = repo.cls(RK, "RankBasedPreferenceSorting")
+    meths = repo.methods(cls)
+
+    def pref_ctor(goal):
+        o = peval.Obj("PreferenceSortingComparator", fields={"_PreferenceSortingComparator__objective": goal, "__objective": goal})
+        o.methods["compare"] = lambda a, b: peval.Interp(resolver=resolver).run_function(psc, [o, a, b], {"self.__objective": goal}, cmod)
+        return o
+
+    def dom_ctor(goals=()):
+        o = peval.Obj("DominanceComparator", fields={"_objectives": list(goals)})
+        o.methods["compare"] = lambda a, b: peval.Interp(resolver=resolver).run_function(dcmp, [o, a, b], {}, cmod)
+        return o
+
+    def equal_ind(vec, label, key):
+        o = make_ind(vec, label)
+        o.key = key
+        o.methods["__eq__"] = lambda other, o=o: getattr(other, "key", None) == o.key
+        o.methods["__hash__"] = lambda o=o: hash(o.key)
+        o.__class__ = peval.ProtoObj
+        return o
+
+    pops = [
+        [((1, 1), "same"), ((1, 1), "same"), ((2, 2), "other")],
+        [((1, 1), "same"), ((1, 1), "same")],
+        [((3, 4), "p"), ((4, 3), "q"), ((3, 4), "p"), ((5, 5), "r")],
+        [((2, 2), "x"), ((3, 3), "y"), ((2, 2), "x"), ((3, 3), "y"), ((4, 4), "z")],
+        [((3, 4), "a"), ((4, 3), "b"), ((2, 2), "c")],
+        [((1, 5), "a"), ((5, 1), "b"), ((3, 3), "c"), ((4, 4), "d"), ((4, 4), "d")],
+    ]
+    n = 0
+    for pop in pops:
+        for coin, popsize in itertools.product((True, False), (50, 2, 1)):
+            inds = [equal_ind(v, f"i{i}{v}", k) for i, (v, k) in enumerate(pop)]
+            tag = f"[assignment] {pop} coin={coin} size={popsize}"
+            selfobj = peval.Obj("RankBasedPreferenceSorting", fields={"_logger": peval.Obj("logger", methods={"debug": lambda *a, **k: None})})
+            it = peval.Interp(resolver=resolver, externs={"OrderedSet": lambda x=(): _OSet(x), "PreferenceSortingComparator": pref_ctor, "DominanceComparator": dom_ctor, "randomness.next_bool": lambda coin=coin: coin,
+                                                          "RankedFronts": lambda fronts=None: list(fronts or [])},
+                              consts={"config.configuration.search_algorithm.population": popsize})
+            for mname, mfn in meths.items():
+                selfobj.methods[mname] = (lambda f: (lambda *a, **k: it.run_function(f, [selfobj, *a] if f.args.args and f.args.args[0].arg == "self" else list(a), k, rmod)))(mfn)
+            try:
+                fronts = it.run_function(cra, [selfobj, list(inds), list(GOALS)], {}, rmod)
+            except peval.Undecided as exc:
+                ctx.undecide("C14.assignment", cra, f"{tag}: {exc}")
+                return
+            except peval.Raises as exc:
+                ctx.fail("C14.assignment", cra, f"{tag}: raises {exc.name} {exc.detail[:60]}", stmt=tag)
+                continue
+            n += 1
+            members = [m for f in fronts for m in f]
+            why = ""
+            if len({id(m) for m in members}) != len(members):
+                why = "an individual is a member of two fronts"
+            ranked: set[int] = set()
+            for idx, front in enumerate(fronts):
+                if not why and any(m.fields["rank"] != idx for m in front):
+                    why = f"a member of front {idx} carries rank {[m.fields['rank'] for m in front]}"
+                if idx >= 1 and not why:
+                    rest = [i for i in inds if id(i) not in ranked]
+                    if len(fronts[0]) >= popsize:
+                        want = rest  # documented shortcut: one catch-all front when the zero front fills the population
+                    else:
+                        want = [i for i in rest if not any(dominates(j.vec, i.vec) for j in rest)]
+                    if sorted(map(id, front)) != sorted(map(id, want)):
+                        why = f"front {idx} is {[m.label for m in front]}, the non-dominated individuals among those not yet ranked are {[w.label for w in want]}"
+                ranked |= {id(m) for m in front}
+            if not why and len(fronts[0]) < popsize:
+                # below the configured size ranking goes on while individuals are left
+                if len(members) < min(popsize, len(inds)) and len(members) < len(inds):
+                    why = f"only {len(members)} of {len(inds)} individuals are ranked although the configured population size {popsize} is not reached"
+            if why:
+                shown = getattr(ctx, "_c14_shown", 0)
+                ctx._c14_shown = shown + 1
+                if shown >= 3:
+                    continue
+            ctx.check("C14.assignment", cra, not why, f"{tag}: {why}: individuals that compare equal (clones) are confused with each other - one is ranked twice, the other never (rank -1)", what=f"{tag}: fronts partition the ranked individuals by identity", stmt=tag)
+    if n == 0:
+        raise AnalysisError("C14.assignment: nothing interpreted")
+
+
 def check(ctx) -> None:
     repo = ctx.repo
     ctx.rule("C14.dominance", "ABSINT: DominanceComparator.compare == Pareto dominance (-1 / 1 / 0) on every ordered pair of the point grid, incl. None operands", floor=30)
     ctx.rule("C14.front", "ABSINT: _get_non_dominated_solutions returns exactly the non-dominated individuals for every sequence of <= 4 individuals over the grid", floor=700)
-    ctx.rule("C14.front-shape", "the front scan breaks out of its inner loop only when the candidate is dominated; each front is removed from the remaining individuals before the next is computed", floor=3)
+    ctx.rule("C14.front-shape", "the front scan breaks out of its inner loop only when the candidate is dominated", floor=1)
+    ctx.rule("C14.assignment", "ABSINT: compute_ranking_assignment over populations with structurally equal individuals x tie coin x configured size: every individual in at most one front (by identity), later fronts == non-dominated among the not yet ranked, rank == front index", floor=30)
     ctx.rule("C14.zero-front", "ABSINT: for every goal the zero front holds an individual of minimal fitness, shortest among ties; every member gets rank 0", floor=10)
     ctx.rule("C14.distance", "ABSINT: after fast_epsilon_dominance_assignment every distance of the front is in [0, 1), whatever it was before (fresh chromosomes start at -1)", floor=18)
     ctx.rule("C14.index", "ABSINT: RankSelection.get_index is an int in [0, len) for bias in [1.0, 2.0] x random in [0, 1) x len, non-decreasing in the random value, median in the better half", floor=45)
@@ -144,19 +235,7 @@ def check(ctx) -> None:
     ctx.check("C14.front-shape", nds, len(breaks) >= 1, "no early exit at all (allowed, but the anchor of the rule vanished)", what="scan has its dominated-exit", stmt="[anchor]") if breaks else ctx.ok("C14.front-shape", nds, "scan without early exit")
     cra = repo.func(RK, "RankBasedPreferenceSorting.compute_ranking_assignment")
     ctx.analysed(cra)
-    c2 = CFG(cra)
-    calls = [n for n in c2.nodes if n.kind == "stmt" and n.stmt is not None and any(isinstance(c, ast.Call) and last_attr(c) == "_get_non_dominated_solutions" for c in ast.walk(n.stmt))]
-    removes = {n.id for n in c2.nodes if n.kind == "stmt" and n.stmt is not None and norm(n.stmt) == "remaining.remove(element)"}
-    for c in calls:
-        # from the call back to itself (next front) a removal loop over the new front must be passed
-        loops = [n for n in own_nodes(cra) if isinstance(n, ast.For) and norm(n.iter) == "new_front" and any(norm(x) == "remaining.remove(element)" for x in ast.walk(n))]
-        heads = {i for l in loops for i in c2.nodes_of(l)}
-        nxt = [b for b, lab in c2.succ[c.id] if lab != "exc"]
-        p = c2.path(nxt, [c.id], avoid_nodes=heads, labels_excluded=("exc",))
-        ctx.paths += 1
-        ctx.check("C14.front-shape", c.stmt, p is None and bool(loops), "the next front is computed without the previous front having been removed from the remaining individuals", what="front removed from `remaining` before the next front", path=c2.describe_path(p) if p else [])
-        arg0 = next((x.args[0] for x in ast.walk(c.stmt) if isinstance(x, ast.Call) and last_attr(x) == "_get_non_dominated_solutions"), None)
-        ctx.check("C14.front-shape", c.stmt, arg0 is not None and norm(arg0) == "remaining", "later fronts are not computed from the not-yet-ranked individuals", what="later fronts computed from `remaining`", stmt="[remaining]")
+    _assignment(ctx, repo, cra, resolver, rmod, cmod)
 
     # ------------------------------------------------------------------ C14.zero-front
     zf = repo.func(RK, "RankBasedPreferenceSorting._get_zero_front")
